@@ -29,6 +29,8 @@ RULE += (" Further backends of the same class may use a second pipeline definiti
 RULE += (" Every rule is loaded with its own source location; rules and probes include a condition the grammar rejects and one naming a missing detection, so the compared error text carries the location of the rule it belongs to.")
 RULE += (" A quarter of the probes is followed by a correlation rule over the probe whose group-by fields are spelled like targets of the field mapping, and the pipeline has an item conditioned on field-name tracking for correlation rules.")
 RULE += (" The pipeline has a (nested) finalizer; a third of the cases builds all its pipelines from one definition dict object.")
+RULE += (" One history in three uses rules (and a probe) that carry one and the same value text under different modifier chains (re, re|expand, expand, contains|expand, base64, plain, ...).")
+RULE += (" One history in three switches between the two output formats of the backend (each with its own format pipeline) in convert / convert_rule calls and in the probe.")
 ASSUMPTIONS = [
     "results are compared as strings (same code, same configuration)",
     "the internal name of an added condition is random; it never appears in the compared output",
@@ -61,13 +63,18 @@ CFG = {"cs": False, "cs_shortcuts": False}
 CONDS = ["sel and not other", "sel and not (other or third)", "not (sel and other) or third", "1 of s* and not (other and third)"]
 
 
-def rule_doc(i: int, kind: str, ls: dict, cond_idx: int = 0):
+def rule_doc(i: int, kind: str, ls: dict, cond_idx: int = 0, salt: int = 0):
     det = {"sel": {"f": f"v{i}", "g|contains": "x"}, "other": {"h": i}, "third": {f"t{i}": f"w{i}"}}
     cond = CONDS[cond_idx % len(CONDS)]
     if kind == "placeholder":
         det["sel"]["p|expand"] = "%known%"
     elif kind == "placeholder_other":  # a variable that only the second pipeline definition has
         det["sel"]["p|expand"] = "%other%"
+    elif kind.startswith("shared_text"):
+        # one value text under a different modifier chain per rule: anything remembered per text (parsed patterns,
+        # placeholder insertion, encoded forms) must not carry from one chain to another
+        chains = ["r|re|expand", "r|re", "r|expand", "r", "r|contains|expand", "r|re|i", "r|contains", "r|startswith|expand", "r|base64", "r|re|expand"]
+        det["sel"][chains[int(kind[len("shared_text"):] or 0) % len(chains)]] = "echo %known% x" + str(salt)  # a text no earlier case of this process has used
     elif kind == "cased":  # unsupported value kind: NotImplementedError while rendering
         det["sel"]["c|cased"] = "Case"
     elif kind == "neg_cased":
@@ -97,7 +104,8 @@ def _mk_class(cfg):
                                                            {"id": "bst", "type": "set_state", "key": "bstate", "val": "on"}]})
     from vf.target.correlation import correlation_attrs
     return make_backend_class(cfg, {**correlation_attrs({}), "backend_processing_pipeline": bp,
-                                    "output_format_processing_pipeline": defaultdict(ProcessingPipeline),
+                                    "output_format_processing_pipeline": defaultdict(ProcessingPipeline, alt=ProcessingPipeline.from_dict({"transformations": [
+                                        {"id": "fmt", "type": "field_name_suffix", "suffix": "_ALT", "field_name_conditions": [{"type": "include_fields", "fields": ["h", "h_n"]}]}]})),
                                     "query_expression": "{query} ##fields={rule.fields} ##idx={state[index]} ##b={state[bstate]}",
                                     "state_defaults": {"index": "none", "bstate": "off"}})
 
@@ -116,7 +124,7 @@ def _clear_caches():
     SigmaModifier._type_hint_cache.clear()
 
 
-def _probe(backend, doc, via: str):
+def _probe(backend, doc, via: str, fmt=None):
     import re
     from sigma.collection import SigmaCollection
     from sigma.rule import SigmaRule
@@ -135,11 +143,11 @@ def _probe(backend, doc, via: str):
                 # group-by fields spelled like targets of the pipeline's field mapping
                 docs_.append({"title": "probe_corr", "correlation": {"type": "event_count", "rules": ["probe_rule"], "timespan": "5m",
                                                                      "group-by": ["mapped_g", "m1", "h"], "condition": {"gte": 2}}})
-            res = backend.convert(SigmaCollection.from_dicts(docs_, source=src))
+            res = backend.convert(SigmaCollection.from_dicts(docs_, source=src), fmt)
         else:
             d_ = copy.deepcopy(doc)
             d_.pop("_with_correlation", None)
-            res = backend.convert_rule(SigmaRule.from_dict(d_, source=src))
+            res = backend.convert_rule(SigmaRule.from_dict(d_, source=src), fmt)
         res = [res] if isinstance(res, str) else res  # a finalizer may join the queries into one text
         return ("ok", [norm(q) for q in res], [(r.title, type(e).__name__, norm(e)) for r, e in backend.errors])
     except Exception as e:  # noqa
@@ -158,7 +166,8 @@ def check_case(case: dict) -> Outcome:
     collect = case["collect"]
     # fresh result before the history
     _clear_caches()
-    fresh1 = _probe(_mk_class(cfg)(_mk_pipeline(), collect), probe, case["probe_via"])
+    pfmt = case.get("probe_fmt")
+    fresh1 = _probe(_mk_class(cfg)(_mk_pipeline(), collect), probe, case["probe_via"], pfmt)
     # history on shared objects
     K = _mk_class(cfg)
     definition = copy.deepcopy(PIPELINE) if case.get("shared_definition") else None
@@ -167,6 +176,7 @@ def check_case(case: dict) -> Outcome:
     shared_pipeline = _mk_pipeline(definition)
     backends = [K(shared_pipeline, collect)]
     inits = []  # order of init events (backend index)
+    cur_fmt = {}  # output format each backend's combined pipeline was built for
     failing = second_backend = False
     hist = []
     for op in case["ops"]:
@@ -190,22 +200,26 @@ def check_case(case: dict) -> Outcome:
                 b = op[1] % len(backends)
                 backends[b].init_processing_pipeline()
                 inits.append(b)
+                cur_fmt[b] = "default"
                 hist.append(f"b{b}.init")
             elif kind == "load":
                 SigmaRule.from_dict(copy.deepcopy(docs[op[1] % len(docs)]), source=SigmaRuleLocation(f"/rules/loaded{op[1] % len(docs)}.yml"))
                 hist.append(f"load(r{op[1] % len(docs)})")
             elif kind == "convert_rule":
                 b, r = op[1] % len(backends), op[2] % len(docs)
-                hist.append(f"b{b}.convert_rule(r{r})")
-                if not hasattr(backends[b], "last_processing_pipeline"):
-                    inits.append(b)
-                backends[b].convert_rule(SigmaRule.from_dict(copy.deepcopy(docs[r]), source=SigmaRuleLocation(f"/rules/r{r}.yml")))
+                hist.append(f"b{b}.convert_rule(r{r}{', ' + repr(op[3]) if len(op) > 3 else ''})")
+                f_ = (op[3] if len(op) > 3 and op[3] != "rule" else None) or "default"
+                if not hasattr(backends[b], "last_processing_pipeline") or cur_fmt.get(b) != f_:
+                    inits.append(b)   # convert_rule builds the combined pipeline when there is none for this format
+                    cur_fmt[b] = f_
+                backends[b].convert_rule(SigmaRule.from_dict(copy.deepcopy(docs[r]), source=SigmaRuleLocation(f"/rules/r{r}.yml")), op[3] if len(op) > 3 and op[3] != "rule" else None)
             elif kind == "convert":
                 b = op[1] % len(backends)
                 sel = [docs[x % len(docs)] for x in op[2]] or [docs[0]]
-                hist.append(f"b{b}.convert({[d['title'] for d in sel]})")
+                hist.append(f"b{b}.convert({[d['title'] for d in sel]}{', ' + repr(op[3]) if len(op) > 3 else ''})")
                 inits.append(b)
-                backends[b].convert(SigmaCollection.from_dicts(copy.deepcopy(sel), source=SigmaRuleLocation("/rules/collection.yml")))
+                cur_fmt[b] = (op[3] if len(op) > 3 else None) or "default"
+                backends[b].convert(SigmaCollection.from_dicts(copy.deepcopy(sel), source=SigmaRuleLocation("/rules/collection.yml")), op[3] if len(op) > 3 else None)
         except Exception:  # noqa - failing conversions are part of the history
             failing = True
     # the probe runs on a backend that uses the first pipeline definition (what the fresh result is computed for)
@@ -213,18 +227,18 @@ def check_case(case: dict) -> Outcome:
     pb = first_def[case["probe_backend"] % len(first_def)]
     # errors collected during the history belong to the history, not to the probe
     backends[pb].errors = []
-    if case["probe_via"] == "convert" or not hasattr(backends[pb], "last_processing_pipeline"):
+    if case["probe_via"] == "convert" or not hasattr(backends[pb], "last_processing_pipeline") or cur_fmt.get(pb) != (pfmt or "default"):
         inits.append(pb)
-    got = _probe(backends[pb], probe, case["probe_via"])
+    got = _probe(backends[pb], probe, case["probe_via"], pfmt)
     _clear_caches()
-    fresh2 = _probe(_mk_class(cfg)(_mk_pipeline(), collect), probe, case["probe_via"])
+    fresh2 = _probe(_mk_class(cfg)(_mk_pipeline(), collect), probe, case["probe_via"], pfmt)
     out.nontrivial = failing or second_backend
     if failing:
         out.label("failing-conversion-in-history")
     if second_backend:
         out.label("second-backend")
     out.label("probe:" + case["probe_via"])
-    desc = f"history {hist} then b{pb}.{case['probe_via']}(probe {probe['logsource']} {probe['detection']['condition']})"
+    desc = f"history {hist} then b{pb}.{case['probe_via']}(format {pfmt}, probe {probe['logsource']} {probe['detection']['condition']})"
     if probe.get("_with_correlation") and case["probe_via"] == "convert" and got[0] == "ok" and got[1] and "corr⟦" in got[1][-1]:
         # field-name tracking belongs to one rule: for the correlation rule none of its group-by fields was produced
         # by the mapping item, so the item conditioned on "not processed by the mapping" must have renamed all of them
@@ -246,10 +260,15 @@ def check_case(case: dict) -> Outcome:
 @st.composite
 def cases(draw):
     not_eq = draw(st.booleans())
+    shared = ["shared_text%d" % k for k in range(10)]
     kinds = ["plain", "plain", "placeholder", "placeholder_other", "cased", "missing", "broken", "multi"] + (["neg_cased"] if not_eq else [])
-    docs = [rule_doc(i, draw(st.sampled_from(kinds)), draw(st.sampled_from(LOGSOURCES)), draw(st.integers(0, 3))) for i in range(draw(st.integers(1, 4)))]
-    probe = rule_doc(9, draw(st.sampled_from(["plain", "placeholder", "placeholder_other", "multi", "broken", "missing"])), draw(st.sampled_from(LOGSOURCES[:4] + LOGSOURCES[5:])), draw(st.integers(0, 3)))
+    if draw(st.integers(0, 2)) == 0:
+        kinds = shared + ["plain"]
+    salt = draw(st.integers(0, 10 ** 9))
+    docs = [rule_doc(i, draw(st.sampled_from(kinds)), draw(st.sampled_from(LOGSOURCES)), draw(st.integers(0, 3)), salt) for i in range(draw(st.integers(1, 4)))]
+    probe = rule_doc(9, draw(st.sampled_from(shared if kinds[0] == shared[0] else ["plain", "placeholder", "placeholder_other", "multi", "broken", "missing"])), draw(st.sampled_from(LOGSOURCES[:4] + LOGSOURCES[5:])), draw(st.integers(0, 3)), salt)
     ops = []
+    fmts = draw(st.integers(0, 2)) == 0   # histories that switch between output formats (each has its own pipeline)
     for _ in range(draw(st.integers(0, 8))):
         k = draw(st.sampled_from(["new_backend", "init", "load", "convert_rule", "convert_rule", "convert", "convert"]))
         if k == "new_backend":
@@ -257,14 +276,15 @@ def cases(draw):
         elif k in ("init", "load"):
             ops.append([k, draw(st.integers(0, 3))])
         elif k == "convert_rule":
-            ops.append([k, draw(st.integers(0, 3)), draw(st.integers(0, 3))])
+            ops.append([k, draw(st.integers(0, 3)), draw(st.integers(0, 3))] + ([draw(st.sampled_from(["alt", "default"]))] if fmts and draw(st.booleans()) else []))
         else:
-            ops.append([k, draw(st.integers(0, 3)), draw(st.lists(st.integers(0, 3), min_size=1, max_size=3))])
+            ops.append([k, draw(st.integers(0, 3)), draw(st.lists(st.integers(0, 3), min_size=1, max_size=3))] + ([draw(st.sampled_from(["alt", "default"]))] if fmts and draw(st.booleans()) else []))
     if draw(st.integers(0, 3)) == 0:
         probe["_with_correlation"] = True
     shared_definition = draw(st.integers(0, 2)) == 0
     return {"shared_definition": shared_definition, "not_eq": not_eq, "docs": docs, "probe": probe, "ops": ops, "collect": draw(st.booleans()),
-            "probe_backend": draw(st.integers(0, 3)), "probe_via": draw(st.sampled_from(["convert", "convert", "convert_rule"]))}
+            "probe_backend": draw(st.integers(0, 3)), "probe_via": draw(st.sampled_from(["convert", "convert", "convert_rule"])),
+            "probe_fmt": draw(st.sampled_from([None, "alt", "default"])) if fmts else None}
 
 
 def run(ctx) -> None:
